@@ -210,7 +210,7 @@ int vnacal_make_correlated_parameter(vnacal_t *vcp, int other,
      */
     vpmrp = _vnacal_alloc_parameter("vnacal_make_correlated_parameter", vcp);
     if (vpmrp == NULL) {
-	return -1;
+	goto error;
     }
     _vnacal_hold_parameter(vpmrp_other);
     vpmrp->vpmr_type = VNACAL_CORRELATED;
